@@ -20,7 +20,7 @@ RULE = (
     "main-thread programs: auto('start-msg','end-msg') body of 0-3 steps from {set_message(short|long), work 30/150/400 ms, raise "
     "ValueError, raise KeyboardInterrupt, raise SystemExit}; schedules: depth-first enumeration of scheduling choices (thread "
     "start, join, event set/is_set, sleep, every stream write; a sleeping thread is a candidate and choosing it advances the "
-    "virtual clock) with a pre-emption bound (2 quick / 3 thorough, capped per program), plus seeded random schedules; per "
+    "virtual clock) with a pre-emption bound (2 quick / 4 thorough, capped per program), plus seeded random schedules; per "
     "schedule: spinner not alive and joined after the with-block for every kind of exit; last frame = ' - end-msg' + line "
     "break on normal exit; after every write the emulator's current line is empty or exactly one frame ' <value> <message>' "
     "of a message that was current. Stress engine: real threads with 0.1-0.5 ms yields inside write. Manual mode: all call "
@@ -29,7 +29,7 @@ RULE = (
 )
 BOUND = {
     "quick": "11 programs x pre-emption bound 2 (cap 600 schedules each) + 120 random schedules each; 12 stress trials; manual sequences of length <= 5",
-    "thorough": "26 programs x pre-emption bound 3 (cap 12000 schedules each) + 4000 random schedules each; 320 stress trials; manual sequences of length <= 6",
+    "thorough": "26 programs x pre-emption bound 4 (cap 60000 schedules each) + 6000 random schedules each; 320 stress trials; manual sequences of length <= 6",
 }
 ASSUMPTIONS = [
     "one OutputStream.write is atomic (a terminal write of a short string); pre-emption inside a write is not explored",
@@ -149,7 +149,7 @@ def run_schedule(lab, sched, program, prefix, rng=None, max_steps=600):
     res = dict(aborted=s.abort, abort_reason=s.abort_reason, exited=exited, error=err, events=list(st.ev), trace=list(s.trace), choices=list(s.choices),
                spinner_registered=bool(spinner), spinner_alive=any(threads[n] != "done" for n in spinner), messages=messages,
                spinner_error=[s.threads[n].get("error") for n in spinner if s.threads[n].get("error")], join_requested_at=s.join_requested_at, steps=s.steps,
-               joined=getattr(pi, "_auto_thread", None) is not None and getattr(pi._auto_thread, "joined", None))
+               )
     if s.abort:
         # release everything that still waits
         with s.cv:
@@ -298,6 +298,7 @@ def run_stress(sh, trials):
             except BaseException:
                 pass
 
+        before = set(threading.enumerate())
         runner = threading.Thread(target=body, name="MainThread-of-trial", daemon=True)
         runner.start()
         runner.join(20)
@@ -308,13 +309,19 @@ def run_stress(sh, trials):
         record = {"kind": "stress", "exit": kind, "trial": k}
         sh.case(("stress", kind, k), True)
         sh.count("stress_trials")
-        th = getattr(pi, "_auto_thread", None)
-        alive = th is not None and th.is_alive()
-        if alive:
-            # stop it so that the process can end; this is the violation being reported
-            pi._auto_running.set()
-            th.join(2)
-            sh.violate("spinner-alive", record, "after leaving auto() (%s) the spinner thread is still alive" % kind)
+        # public observation: threads that exist now and did not exist before the trial
+        leaked = [t for t in threading.enumerate() if t not in before and t is not runner and t.is_alive()]
+        if leaked:
+            sh.violate("spinner-alive", record, "after leaving auto() (%s) the spinner thread is still alive: %r" % (kind, [t.name for t in leaked]))
+            # best-effort clean-up so that the shard can end (not part of the oracle)
+            ev = getattr(pi, "_auto_running", None)
+            if ev is not None:
+                ev.set()
+                for t in leaked:
+                    t.join(2)
+            if any(t.is_alive() for t in leaked):
+                sh.note("leaked_threads", True)
+                return
             continue
         t = Term(200)
         for who, x in st.ev:
@@ -420,7 +427,7 @@ def plan(tier, seed):
         specs = [{"part": "explore", "programs": list(range(i, len(progs), 3)), "bound": 2, "cap": 600, "random": 120} for i in range(3)]
         specs += [{"part": "stress", "trials": 6} for _ in range(2)] + [{"part": "manual", "maxlen": 5}]
         return specs
-    specs = [{"part": "explore", "programs": [i], "bound": 3, "cap": 12000, "random": 4000} for i in range(len(progs))]
+    specs = [{"part": "explore", "programs": [i], "bound": 4, "cap": 60000, "random": 6000} for i in range(len(progs))]
     specs += [{"part": "stress", "trials": 40} for _ in range(8)] + [{"part": "manual", "maxlen": 6}]
     return specs
 
